@@ -14,6 +14,7 @@ package main
 
 import (
 	"context"
+	"errors"
 	"fmt"
 	"os"
 	"regexp"
@@ -42,16 +43,23 @@ func c20Body(role string, variant string) func() {
 		st := memory.NewStorage()
 		peer, self := "CLI", "SRV"
 		drained := make(chan int, 1)
+		parentCtx, cancelParent := context.WithCancel(context.Background())
+		defer cancelParent()
+		var hold int32 // the writer-loop stand-in stops taking messages (a peer that no longer reads)
+		size := 64
+		if variant == "error-stop" {
+			size = 0
+		}
 		vsched.Deterministic(func() {
 			var err error
 			if role == "ini" {
 				peer, self = "SRV", "CLI"
-				h = simplefixgo.NewInitiatorHandler(context.Background(), "35", 64)
+				h = simplefixgo.NewInitiatorHandler(parentCtx, "35", size)
 				s, err = session.NewInitiatorSession(h, opts(), &session.LogonSettings{
 					TargetCompID: peer, SenderCompID: self, HeartBtInt: 1, EncryptMethod: "0", CloseTimeout: time.Second,
 				}, st, st)
 			} else {
-				h = simplefixgo.NewAcceptorHandler(context.Background(), "35", 64)
+				h = simplefixgo.NewAcceptorHandler(parentCtx, "35", size)
 				s, err = session.NewAcceptorSession(opts(), h, &session.LogonSettings{
 					LogonTimeout: 30 * time.Second, HeartBtLimits: &session.IntLimits{Min: 1, Max: 60}, CloseTimeout: time.Second,
 				}, func(*session.LogonSettings) error { return nil }, st, st)
@@ -63,6 +71,11 @@ func c20Body(role string, variant string) func() {
 			go func() {
 				n := 0
 				for {
+					if atomic.LoadInt32(&hold) == 1 {
+						<-h.Context().Done()
+						drained <- n
+						return
+					}
 					select {
 					case m, ok := <-h.Outgoing():
 						if !ok {
@@ -195,6 +208,38 @@ func c20Body(role string, variant string) func() {
 			in("5")
 		case "peer-logout":
 			in("5")
+			// the connection stays open: one period of silence while logged out (the test-request timer takes note
+			// of it), then a message that draws no reply and changes no state
+			time.Sleep(2200 * time.Millisecond)
+			in("3", "45=1", "58=noted")
+		case "error-stop":
+			// the connection ends by a read error while senders are waiting for a peer that no longer reads: what
+			// Acceptor.serve / Initiator.Serve do then is StopWithError(err) and cancel the handler's context
+			atomic.StoreInt32(&hold, 1)
+			sdone := make(chan struct{}, 3)
+			for g := 0; g < 2; g++ {
+				g := g
+				go func() {
+					_ = s.Send(fixgen.NewMarketDataRequest().SetMDReqID(fmt.Sprintf("late-%d", g)))
+					sdone <- struct{}{}
+				}()
+			}
+			go func() {
+				_ = h.SendRaw(rawFrom(self, peer, "0", 99))
+				_ = h.SendRaw(rawFrom(self, peer, "0", 100))
+				sdone <- struct{}{}
+			}()
+			time.Sleep(200 * time.Millisecond)
+			h.StopWithError(errors.New("read tcp: connection reset by peer"))
+			cancelParent()
+			for i := 0; i < 3; i++ {
+				<-sdone
+			}
+			time.Sleep(1500 * time.Millisecond)
+			vsched.Settle()
+			atomic.StoreInt64(&c20Drained, int64(<-drained))
+			vsched.Settle()
+			return
 		case "relogon":
 			// the peer logs out and on again on the same connection while the session's timers run
 			in("5")
@@ -374,7 +419,7 @@ func runC20(R *vlib.Out) {
 	}
 	var ps []map[string]any
 	for _, role := range []string{"acc", "ini"} {
-		for _, v := range []string{"stop", "peer-logout", "silent", "relogon", "quick-relogon", "register-during-logon"} {
+		for _, v := range []string{"stop", "peer-logout", "silent", "relogon", "quick-relogon", "register-during-logon", "error-stop"} {
 			ps = append(ps, map[string]any{"role": role, "variant": v})
 		}
 	}
